@@ -17,4 +17,7 @@ VARIANTS = [
     V('benign-hat-via-zeros', F, ("return np.array([[0,      -omg[2],  omg[1]],\n                     [omg[2],       0, -omg[0]],\n                     [-omg[1], omg[0],       0]])", "m = np.zeros((3, 3))\n    m[0, 1] = -omg[2]\n    m[0, 2] = omg[1]\n    m[1, 0] = omg[2]\n    m[1, 2] = -omg[0]\n    m[2, 0] = -omg[1]\n    m[2, 1] = omg[0]\n    return m"), 'silent'),
     V('benign-adjoint-r-c', F, ("rarr = np.eye((6), dtype=np.float64)\n    vs3 = VecToso3(p)\n    rarr[0:3, 0:3] = R\n    rarr[3:6, 3:6] = R\n    rarr[3:6, 0:3] = vs3 @ R\n    return rarr", "return np.r_[np.c_[R, np.zeros((3, 3))], np.c_[np.dot(VecToso3(p), R), R]]"), 'silent'),
     V('benign-log3-rename', F, [("trace = SafeTrace(R)\n    acosinput = (trace - 1) / 2.0", "tr = SafeTrace(R)\n    acosinput = (tr - 1) / 2.0")], 'silent'),
+    V('trace-helper-snaps-near-identity', 'basic_robotics/modern_robotics_numba/modern_high_performance.py', ('            sum = sum + R[i, i]\n        return sum\n', '            sum = sum + R[i, i]\n        if abs(sum - sz[0]) < 1e-6:\n            return 1.0 * sz[0]\n        return sum\n'), 'fire', 'SafeTrace'),
+    V('norm-helper-drops-a-component', 'basic_robotics/modern_robotics_numba/modern_high_performance.py', ('return np.sqrt(v[0] * v[0] + v[1] * v[1] + v[2] * v[2])', 'return np.sqrt(v[0] * v[0] + v[1] * v[1])'), 'fire', 'Norm'),
+    V('benign-trace-helper-library-call', 'basic_robotics/modern_robotics_numba/modern_high_performance.py', ('    sz = R.shape\n    if sz[0] == sz[1]:\n        sum = 0\n        for i in range(sz[0]):\n            sum = sum + R[i, i]\n        return sum\n    return -1\n', '    return np.trace(R)\n'), 'silent'),
 ]
